@@ -1,10 +1,13 @@
-"""C07 — configuration of the check (deductive tier under construction)."""
+"""C07 — Tile filters never drop a tile holding data: filtered sampling leaves no holes."""
 PROPERTY = "C07"
-LEVEL = "exploration"
-CONTRACT_MODULES = ["contracts.specfuns"]
-FUNCTIONS = []
+LEVEL = "other"
+CONTRACT_MODULES = ["contracts.specfuns", "contracts.toastgeom", "contracts.filters"]
+FUNCTIONS = ["toasty.samplers._latlon_tile_filter", "toasty.samplers.ChunkedPlateCarreeSampler._chunk_bounds",
+             "toasty.samplers.ChunkedPlateCarreeSampler.filter"]
 LEMMAS = []
 SLOW = ()
-TRUSTED_BASE = []
-ASSUMPTIONS = []
-EXPLANATION = "bounded run-time tier only so far"
+TRUSTED_BASE = ["pyvc VC generator; z3/cvc5", "compiled tile_intersects_latlon_bbox (assumed contract)", "np.asarray copy semantics",
+                "machine floats treated as reals"]
+ASSUMPTIONS = ["the footprint bounds of WcsSampler._image_bounds (coarse grid + refinement through the external WCS projection), the "
+               "chunk sampler's masked indexing and all geometric containment are decided by the bounded tier only"]
+EXPLANATION = "box filter: fresh corner array and bounds in the external contract's order; chunk bounds: exact rectangle edges"
